@@ -8,7 +8,7 @@ from .. import gen, impl, oracle, ser, stream
 
 ID = "C03"
 LEVEL = "proof"
-PROPS_MODULE = "SymmModel.Props.C03All"
+PROPS_MODULE = "SymmModel.Props.C03All2"
 THEOREMS = [
     "SymmModel.C03.isPerm_iff_perm",
     "SymmModel.C03.koszul_eq_invOdd",
@@ -42,10 +42,12 @@ THEOREMS = [
     "SymmModel.C03.tensordotF_refines_graded_GRat",
     "SymmModel.C09.einsumF_eq",
     "SymmModel.C09.einsumF_refines_graded",
-    "SymmModel.C09.transposedElem_inBox"
+    "SymmModel.C09.transposedElem_inBox",
+    "SymmModel.C06.tensordotF_modes_agree",
+    "SymmModel.C06.tensordotF_refines_graded_any_mode"
 ]
-LEAN_FILES = ["SymmModel.Props.C03", "SymmModel.Proofs.Koszul", "SymmModel.Props.C03b", "SymmModel.Props.C03All", "SymmModel.Proofs.Graded", "SymmModel.Props.C09b", "SymmModel.Proofs.LazyMore"]
-PLANNED = ["fused and auto mode of tensordotF (via C05/C06)"]
+LEAN_FILES = ["SymmModel.Props.C03", "SymmModel.Proofs.Koszul", "SymmModel.Props.C03b", "SymmModel.Props.C03All", "SymmModel.Proofs.Graded", "SymmModel.Props.C09b", "SymmModel.Proofs.LazyMore", "SymmModel.Props.C06c", "SymmModel.Props.C03All2", "SymmModel.Proofs.TdotFused8", "SymmModel.Proofs.TdotFused9"]
+PLANNED = ["fused and auto mode of tensordotF with an empty free group on either side (non-empty groups proved in C06c)"]
 RULE = ("random fermionic arrays over all symmetries (static/generic classes), even and odd total charge with "
         "labels, sparse, pending lazy signs; every permutation for transpose; tensordot over random axes in modes "
         "auto/fused/blockwise; trace, matmul, single-array einsum. Compared with the Lean model and an independent "
